@@ -101,13 +101,13 @@ func (c02) Gen(tier string, seed int64) []fw.Unit {
 				}
 			}
 		}
-		for i := 0; i < 150; i++ {
+		for i := 0; i < 600; i++ {
 			add("count-random", dmContent(r, r.Intn(5), r.Intn(1561)))
 		}
 	}
-	nr := 300
+	nr := 1500
 	if tier == "thorough" {
-		nr = 3000
+		nr = 10000
 	}
 	for i := 0; i < nr; i++ {
 		n := r.Intn(60)
